@@ -33,7 +33,8 @@ HTML_TAG_NAMES = sorted(n for n in dir(ht.tags) if not n.startswith("_") and cal
 SVG_TAG_NAMES = sorted(n for n in dir(ht.svg) if not n.startswith("_") and callable(getattr(ht.svg, n))
                        and getattr(getattr(ht.svg, n), "__module__", "") == "htmltools.svg")
 
-CUSTOM_NAMES = ["x-y", "my-element", "a1", "H7", "Foo", "x-y:z", "svg:rect", "ns:tag-1", "custom.el", "T_t"]
+CUSTOM_NAMES = ["x-y", "my-element", "a1", "H7", "Foo", "x-y:z", "svg:rect", "ns:tag-1", "custom.el", "T_t", "styled-button", "script-editor",
+                "stylesheet", "scripts", "brx", "input-group", "linked"]
 BLOCK_NAMES = ["div", "p", "section", "ul", "li", "h1", "table", "tr", "td", "form", "nav", "blockquote"]
 INLINE_NAMES = ["span", "a", "b", "i", "em", "strong", "code", "small", "sub", "label", "q", "kbd"]
 
@@ -138,7 +139,22 @@ class TFObj(TF):
         return self.s
 
 
+class StrSub(str):
+    """A str subclass (like htmltools' own jsx() strings): still a plain text child."""
+
+
+class HTMLSub(ht.HTML):
+    """An HTML subclass: still trusted markup."""
+
+
 HARNESS_DOUBLES = (ReprObj, TF, TFObj)
+
+_SHARED = {}
+
+
+def reset_shared():
+    """Forget objects built for `share` keys (call before building a new case)."""
+    _SHARED.clear()
 
 
 # ------------------------------------------------------------------ builder
@@ -170,13 +186,28 @@ def _num(v):
 
 
 def build(r):
+    sh = r.get("share") if isinstance(r, dict) else None
+    if sh is not None:
+        if sh not in _SHARED:
+            _SHARED[sh] = _build(r)
+        return _SHARED[sh]
+    return _build(r)
+
+
+def build_root(r):
+    """Top-level build of one case: objects marked `share` are shared within it, not across cases."""
+    reset_shared()
+    return build(r)
+
+
+def _build(r):
     k = r["k"]
     if k == "text":
-        return r["s"]
+        return StrSub(r["s"]) if r.get("sub") else r["s"]
     if k == "num":
         return _num(r["v"])
     if k == "html":
-        return ht.HTML(r["s"])
+        return HTMLSub(r["s"]) if r.get("sub") else ht.HTML(r["s"])
     if k == "obj":
         return ReprObj(r["s"])
     if k == "meta":
@@ -222,7 +253,7 @@ def build_dep(r):
             kw["head"] = h
         else:
             kw["head"] = [build(c) for c in h]
-    return ht.HTMLDependency(r["name"], r["version"], **kw)
+    return ht.HTMLDependency(r["name"], r["version"], **kw)  # (keys such as _mark / nofs are harness-only)
 
 
 def _deepcopy_json(x):
@@ -279,10 +310,27 @@ def build_tag(r):
         return t
     if how == "taglist":
         return mk(*attr_args, ht.TagList(*kids))
+    if how == "toggle_ws":  # built with the other flag, flag set afterwards
+        t = (f(*attr_args, *kids, _add_ws=not ws) if f else ht.Tag(name, *attr_args, *kids, _add_ws=not ws))
+        t.add_ws = ws
+        return t
+    if how == "reassign_children":
+        t = mk(*attr_args, "placeholder")
+        t.children = ht.TagList(*kids)
+        return t
+    if how == "slice_children":
+        t = mk(*attr_args, "dropped", *kids)
+        t.children = t.children[1:]
+        return t
+    if how == "iadd":
+        t = mk(*attr_args)
+        t.children += kids
+        return t
     raise ValueError(how)
 
 
-HOWS = ["ctor", "ctor", "ctor_mixed", "nested", "append", "append_many", "extend", "insert", "taglist"]
+HOWS = ["ctor", "ctor", "ctor_mixed", "nested", "append", "append_many", "extend", "insert", "taglist", "toggle_ws", "reassign_children",
+        "slice_children", "iadd"]
 
 
 # ------------------------------------------------------------------ recipe helpers
@@ -413,3 +461,17 @@ def leaf_text(r) -> str:
     if r["k"] == "num":
         return str(_num(r["v"]))
     raise ValueError(r["k"])
+
+
+def unshare(r):
+    """Deep copy of a recipe without object sharing (for checks that edit recipes by path)."""
+    import json as _json
+
+    def strip(x):
+        if isinstance(x, dict):
+            return {k: strip(v) for k, v in x.items() if k != "share"}
+        if isinstance(x, list):
+            return [strip(v) for v in x]
+        return x
+
+    return strip(_json.loads(_json.dumps(r)))
